@@ -147,6 +147,37 @@ def users_of(repo, owner, dunder):
     return out
 
 
+TOLERANT = ("allclose", "isclose", "assert_allclose", "assert_almost_equal", "assert_array_almost_equal", "approx")
+
+
+def tolerant_comparisons(repo, cls, eq, depth=0, seen=None):
+    """[(node, text)] of tolerance-based comparisons reachable from __eq__ through helpers of the class / module"""
+    seen = seen if seen is not None else set()
+    out = []
+    if id(eq) in seen or depth > 3:
+        return out
+    seen.add(id(eq))
+    for n in walk_no_nested(eq):
+        if isinstance(n, ast.Call):
+            f = n.func
+            nm = f.attr if isinstance(f, ast.Attribute) else (f.id if isinstance(f, ast.Name) else None)
+            if nm in TOLERANT:
+                out.append((n, norm(n)[:100]))
+                continue
+            callee = None
+            if isinstance(f, ast.Attribute) and isinstance(f.value, ast.Name) and f.value.id in ("self", "cls", cls.name):
+                callee = repo.find_method(cls, f.attr)[1]
+            elif isinstance(f, ast.Name) and f.id in cls.mod.functions:
+                callee = cls.mod.functions[f.id]
+            if callee is not None:
+                out += tolerant_comparisons(repo, cls, callee, depth + 1, seen)
+        if isinstance(n, ast.Compare) and len(n.ops) == 1 and isinstance(n.ops[0], (ast.Lt, ast.LtE)):
+            l = n.left
+            if isinstance(l, ast.Call) and norm(l.func) in ("abs", "np.abs", "math.fabs", "np.linalg.norm", "np.max", "np.amax") and l.args and any(isinstance(x, ast.BinOp) and isinstance(x.op, ast.Sub) for x in ast.walk(l.args[0])):
+                out.append((n, norm(n)[:100]))
+    return out
+
+
 def run(repo, res, tier):
     res.rule("EQ-A", "each ==/!= in __eq__ confronts a self-derived with an other-derived value on every reaching definition", 60)
     res.rule("EQ-B", "every constructor parameter feeds an attribute that __eq__ compares (per class using the __eq__)", 100)
@@ -155,6 +186,7 @@ def run(repo, res, tier):
     res.rule("EQ-E", "set-typed attributes are not converted to sequences before comparison", 10)
     res.rule("EQ-F", "element-wise matching of a collection of self against other's is two-sided (sizes compared)", 2)
     res.rule("EQ-G", "__hash__ is order-insensitive wherever __eq__ is", 3)
+    res.rule("EQ-H", "__eq__ compares exactly (on the same canonical form __hash__ uses): no tolerance-based comparison", 30)
 
     classes = eq_classes(repo)
     if len(classes) < 35:
@@ -166,6 +198,10 @@ def run(repo, res, tier):
         hs = cls.methods.get("__hash__")
         cname = cls.name
 
+        # ---------------- EQ-H: a tolerance is not an equivalence (and cannot agree with any hash of the value)
+        if eq is not None:
+            tol = tolerant_comparisons(repo, cls, eq)
+            res.check("EQ-H", "%s.__eq__ compares exactly" % cname, not tol, mod, tol[0][0] if tol else eq, "%s.__eq__: %s" % (cname, tol[0][1] if tol else ""), "values closer than a tolerance compare equal: with a relative tolerance objects that differ by far more than 1e-10 are equal, and objects that are equal get different hashes (the hash is computed from the exact / rounded value)", qualname="%s.__eq__" % cname)
         # ---------------- EQ-A
         if eq is not None:
             ps = [a.arg for a in eq.args.args]
